@@ -59,3 +59,97 @@ pub fn ref_param_bytes(pb: &[u8; 8], hook_h2: bool) -> Option<(usize, u32)> {
         Some((levels, total))
     }
 }
+
+// ---- build configuration as documented (HBS_LMS_* environment), read by the harness crate itself --
+const fn parse_list(s: Option<&str>, default: usize) -> ([usize; 8], usize) {
+    let mut out = [default; 8];
+    let mut n = 0usize;
+    match s {
+        None => (out, 8),
+        Some(s) => {
+            let b = s.as_bytes();
+            let mut i = 0;
+            let mut cur = 0usize;
+            let mut have = false;
+            while i < b.len() {
+                let c = b[i];
+                if c >= b'0' && c <= b'9' {
+                    cur = cur * 10 + (c - b'0') as usize;
+                    have = true;
+                } else if have {
+                    out[n] = cur;
+                    n += 1;
+                    cur = 0;
+                    have = false;
+                }
+                i += 1;
+            }
+            if have {
+                out[n] = cur;
+                n += 1;
+            }
+            (out, n)
+        }
+    }
+}
+/// configured maximum number of HSS levels
+pub const CFG_LEVELS: usize = match option_env!("HBS_LMS_MAX_ALLOWED_HSS_LEVELS") {
+    None => 8,
+    Some(s) => parse_list(Some(s), 8).0[0],
+};
+/// configured maximum tree height per level
+pub const CFG_HEIGHTS: [usize; 8] = parse_list(option_env!("HBS_LMS_TREE_HEIGHTS"), 25).0;
+/// configured minimum Winternitz parameter per level
+pub const CFG_WINTERNITZ: [usize; 8] = parse_list(option_env!("HBS_LMS_WINTERNITZ_PARAMETERS"), 1).0;
+
+/// As `ref_param_bytes`, restricted to what the documented build configuration admits:
+/// at most CFG_LEVELS levels, height <= CFG_HEIGHTS[level], w >= CFG_WINTERNITZ[level].
+pub fn ref_param_bytes_cfg(pb: &[u8; 8], hook_h2: bool) -> Option<(usize, u32)> {
+    let mut levels = 0usize;
+    let mut total = 0u32;
+    let mut i = 0;
+    while i < 8 {
+        let b = pb[i];
+        if b == 0xff {
+            // the library reads only CFG_LEVELS parameter bytes and requires the rest to be unused
+            let mut j = i;
+            while j < 8 {
+                if j >= CFG_LEVELS && pb[j] != 0xff {
+                    return None;
+                }
+                j += 1;
+            }
+            break;
+        }
+        if i >= CFG_LEVELS {
+            return None;
+        }
+        let h = match b >> 4 {
+            1 if hook_h2 => 2,
+            5 => 5,
+            6 => 10,
+            7 => 15,
+            8 => 20,
+            9 => 25,
+            _ => return None,
+        };
+        let w = match b & 0x0f {
+            1 => 1,
+            2 => 2,
+            3 => 4,
+            4 => 8,
+            _ => return None,
+        };
+        if h as usize > CFG_HEIGHTS[i] || w < CFG_WINTERNITZ[i] {
+            return None;
+        }
+        levels += 1;
+        total += h;
+        i += 1;
+    }
+    if levels == 0 {
+        None
+    } else {
+        Some((levels, total))
+    }
+}
